@@ -18,6 +18,7 @@ mod graphs;
 mod hdlc;
 mod hdlcprop;
 mod kernels;
+mod maps;
 mod runners;
 mod sources;
 mod spsc;
@@ -88,6 +89,11 @@ fn main() {
         "c13" => hdlcprop::main(&opts),
         "c14" => formats::main(&opts),
         "c16" => sources::main(&opts),
+        "c18" => maps::main(&opts),
+        "c18-child" => {
+            let mode = opts.extra.first().cloned().unwrap_or_default();
+            std::process::exit(maps::child(&mode));
+        }
         "c19" => derive::main(&opts),
         "c12" => blockprops::main(&opts, blockprops::Mode::C12),
         other => {
